@@ -161,8 +161,8 @@ class _Sem(irsem.IrSem):
         super().__init__(*a, **k)
         self._words = {}
 
-    def store(self, addr, val, nbytes):
-        super().store(addr, val, nbytes)
+    def store(self, addr, val, nbytes, *more):
+        super().store(addr, val, nbytes, *more)
         a = z3.simplify(addr)
         if not z3.is_bv_value(a):
             self._words.clear()
@@ -173,12 +173,12 @@ class _Sem(irsem.IrSem):
                 del self._words[(b, n)]
         self._words[(a, nbytes)] = val
 
-    def load(self, addr, nbytes):
+    def load(self, addr, nbytes, *more):
+        r = super().load(addr, nbytes, *more)       # (records the access-validity premise)
         a = z3.simplify(addr)
         if z3.is_bv_value(a) and (a.as_long(), nbytes) in self._words:
-            self.ub.append(z3.Not(self._valid(addr, nbytes)))
             return self._words[(a.as_long(), nbytes)]
-        return super().load(addr, nbytes)
+        return r
 
 
 def _eq64(x, y):
